@@ -264,6 +264,21 @@ class C08(ValCheck):
                      wstyle=r.choice(["uniform", "sparse", "small", "extreme"]), wscale=netgen.f32(r.choice([0.002, 0.01])), bias=True, seed=r.randrange(1 << 30))
             if kind == "CONV_2D":
                 L["oc"] = oc
+            if layers and r.random() < 0.4:
+                # siamese branch: same geometry as an earlier layer, usually on the same source (same IFM scale), own output scale
+                P = r.choice(layers)
+                pc = vals[P["in"][0]]["shape"][3]
+                cands = [P["in"][0]] * 2 + [i for i, v in enumerate(vals) if v["shape"][3] == pc]
+                src = r.choice(cands)
+                x = vals[src]
+                _, h, w, c = x["shape"]
+                kind, k = P["op"], tuple(P["k"])
+                oc = P["oc"] if kind == "CONV_2D" else c
+                L.update(op=kind, k=list(k), stride=list(P["stride"]) if r.random() < 0.7 else L["stride"], dil=list(P["dil"]))
+                if kind == "CONV_2D":
+                    L["oc"] = oc
+                else:
+                    L.pop("oc", None)
             L["in"] = [src]
             # share weights (and bias) with an earlier layer of identical geometry: same cache key, different consumers
             prev = [M for M in layers if M["op"] == kind and M["k"] == L["k"] and M.get("oc") == L.get("oc") and vals[M["in"][0]]["shape"][3] == c]
@@ -400,7 +415,7 @@ class C10(ValCheck):
 
     def extra(self, desc, cr, vc, out, layers):
         # tag-level run: stripe partition (dead stores), rolling buffers under async schedules
-        sim = netsim.simulate(cr["out_bytes"], netsim.acc_of(desc["opts"]), desc["seed"], 2, False, netsim.is_spilling(desc["opts"]))
+        sim = netsim.simulate(cr["out_bytes"], netsim.acc_of(desc["opts"]), desc["seed"], 2, False, netsim.is_spilling(desc["opts"]), cr.get("t1"))
         out["evaluations"] += sim["stats"]["schedules"]
         # (bytes rewritten by a later stripe of the same operator before anyone read them are counted as a probe only: rolling
         # buffers legitimately recycle rows a strided / VALID consumer never reads, so this is not a sound overlap oracle)
